@@ -132,7 +132,7 @@ def generate(seed, tier):
                 q = g.pick(m)  # aim at a quad that is present
                 op["t"] = [list(x) for x in q[0]]
                 op["g"] = g.choice([None, q[1], q[1]])
-            op["via"] = g.choice(["graph", "cg", "store"])
+            op["via"] = g.choice(["graph", "cg", "store", "handed-out"])
             for q in [q for q in content if q[0] == tuple(map(_tt, op["t"])) and (op["g"] is None or q[1] == op["g"])]:
                 content.discard(q)
                 gone[part].append(q)
@@ -143,7 +143,7 @@ def generate(seed, tier):
             op["k"] = "remove"
             op["t"] = [s if shape[0] != "?" else None, p if shape[1] != "?" else None, o if shape[2] != "?" else None]
             op["g"] = g.choice([None] + list(range(ngraphs)))
-            op["via"] = g.choice(["graph", "cg", "store"])
+            op["via"] = g.choice(["graph", "cg", "store", "handed-out"])
             for q in [q for q in content if all(op["t"][i] is None or _tt(op["t"][i]) == q[0][i] for i in range(3)) and (op["g"] is None or q[1] == op["g"])]:
                 content.discard(q)
                 gone[part].append(q)
@@ -263,6 +263,8 @@ def execute(trace, ctx):
         ctx.op(part, k)
         gname = graphs[op["g"] % len(graphs)] if op.get("g") is not None else None
         via = op.get("via", "graph")
+        if via == "handed-out" and (simple or gname is None):
+            via = "graph" if gname is not None else "store"
         if k == "add":
             t = op["t"]
             q = (skey(t[0]), skey(t[1]), skey(t[2]), skey(gname))
@@ -339,6 +341,18 @@ def execute(trace, ctx):
                     Graph(st, T(gname)).remove(pat)
                 elif via == "cg":
                     ConjunctiveGraph(st, identifier=T(graphs[0])).remove(pat + (Graph(st, T(gname)),))
+                elif via == "handed-out":
+                    # through the Graph objects that quads() / contexts() of a ConjunctiveGraph on the wrapper hand out
+                    ctx.probe("write-through-handed-out-graph")
+                    cgx = ConjunctiveGraph(st, identifier=T(graphs[0]))
+                    if op["uid"] % 2:
+                        for s_, p_, o_, c_ in list(cgx.quads(pat)):
+                            if c_ is not None and c_.identifier == T(gname):
+                                c_.remove((s_, p_, o_))
+                    else:
+                        for c_ in list(cgx.contexts()):
+                            if c_.identifier == T(gname):
+                                c_.remove(pat)
                 else:
                     st.remove(pat, Graph(st, T(gname)))
             else:
